@@ -710,6 +710,13 @@ impl Campaign for C20 {
             mk(true, &["5", "", "7"]),
             mk(false, &["5", "( )", "7"]),
             mk(true, &["5", "( )", "7"]),
+            // SimpleGarnishData files a list's lookup table by the *addresses* of its items: which of two equal keys
+            // wins, and whether a lookup trips over a plain item first, depends on what was built before
+            mk(false, &["5", "(:a = 1, :a = 2).a"]),
+            mk(false, &["5 + 6", "(:a = 1, :a = 2).a"]),
+            mk(false, &["5", "(7, :a = 1).a"]),
+            mk(false, &["5 + 6", "(7, :a = 1).a"]),
+            mk(false, &["5 + 6 + 7", "(7, 8, :a = 1).a"]),
             // the repository's own 'jumping_wrong_index' script as a later tenant
             mk(true, &["10 + 5", ":first_item = { $? ?> 987 |> 100 }\n:circle1 = { 10 + 5 }\n\n($.first_item~~)"]),
         ]
